@@ -1,7 +1,7 @@
 CONSTANTS
   Sess = {1, 2, 3}
   Names = {"a", "b"}
-  Split = FALSE
+  Modes = {FALSE}
 INIT TInit
 NEXT TNext
 INVARIANT Report
